@@ -32,12 +32,13 @@ const (
 	FBound                      // size bound at quiescence (C04)
 	FBook                       // bookkeeping at quiescence (C05)
 	FPanic                      // unexpected panic escaping an operation
+	FOrder                      // single producer: removals of one key are notified (OnDeletion) in the order they happened (C16)
 	FAll      Facet = 1<<iota - 1
 )
 
 var facetNames = map[Facet]string{FRet: "ret", FContents: "contents", FIter: "iter", FVis: "vis", FDeadline: "deadline",
 	FEvents: "events", FJustify: "justify", FLoad: "load", FRefresh: "refresh", FSweep: "sweep", FStats: "stats",
-	FBound: "bound", FBook: "book", FPanic: "panic"}
+	FBound: "bound", FBook: "book", FPanic: "panic", FOrder: "order"}
 
 // Action is one step of a script. Plain data.
 type Action struct {
@@ -77,6 +78,11 @@ type pend struct {
 	val   int
 	cause otter.DeletionCause
 	w     uint32
+	seq   int // position in the order in which removals happened
+	auto  bool // removed by maintenance itself (eviction, sweep), not through a write event of the producer
+	// for the sweep obligation (C13): deadline and write time of the removed entry, if it has a finite, never shortened deadline
+	exp, writtenAt int64
+	sweepable      bool
 }
 
 // Violation is a reported disagreement.
@@ -149,6 +155,8 @@ type Runner struct {
 	expAsync     map[int]pend
 	seenAtomic   map[int]bool
 	seenAsync    map[int]bool
+	lastAsyncSeq map[int]pend
+	removalSeq   int
 	installed    map[int]int // val -> key
 	cur          *Action
 	loaderCalls  []loaderCall
@@ -215,7 +223,7 @@ func NewRunner(cfg Config, facets Facet) *Runner {
 		Facets:    facets,
 		M:         map[int]*MEntry{},
 		expAtomic: map[int]pend{}, expAsync: map[int]pend{},
-		seenAtomic: map[int]bool{}, seenAsync: map[int]bool{},
+		seenAtomic: map[int]bool{}, seenAsync: map[int]bool{}, lastAsyncSeq: map[int]pend{},
 		installed:        map[int]int{},
 		writesSinceMaint: map[int]int{},
 		consumedAtomic:   map[int]bool{},
@@ -443,9 +451,11 @@ func (r *Runner) modelDelete(k int, cause otter.DeletionCause) {
 }
 
 func (r *Runner) expect(k, v int, cause otter.DeletionCause) {
-	p := pend{key: k, val: v, cause: cause}
+	r.removalSeq++
+	p := pend{key: k, val: v, cause: cause, seq: r.removalSeq}
 	if e := r.M[k]; e != nil && e.Val == v {
 		p.w = e.W
+		p.exp, p.writtenAt, p.sweepable = e.Exp, e.WrittenAt, r.Cfg.Expiry != ExpNone && !e.ExpInf && !e.Shortened
 	}
 	r.expAtomic[v] = p
 	r.expAsync[v] = p
@@ -548,13 +558,23 @@ func (r *Runner) reconcile() error {
 		if p.key != ev.Key || p.cause != ev.Cause {
 			return r.fail(FEvents, "OnDeletion %v: expected key %d cause %s", ev, p.key, p.cause)
 		}
+		if r.Facets&FOrder != 0 && !p.auto {
+			// One goroutine is the only producer of write events: they are consumed in the order they were submitted, so the
+			// values of one key that were replaced or invalidated by operations are notified in the order in which that
+			// happened. (Removals decided by maintenance itself are notified from inside the processing of an event, e.g. an
+			// oversized new value is evicted before the replacement of its predecessor is notified: they are not ordered here.)
+			if last, ok := r.lastAsyncSeq[ev.Key]; ok && p.seq < last.seq {
+				return r.fail(FOrder, "OnDeletion %v delivered after OnDeletion (%d,%d,%s), but it was removed before that value", ev, last.key, last.val, last.cause)
+			}
+			r.lastAsyncSeq[ev.Key] = p
+		}
 	}
 	if len(r.expAtomic) > 0 {
 		for _, p := range r.expAtomic {
 			return r.failFirst([]Facet{FEvents, FContents}, "value (%d,%d) stopped being current (%s) but OnAtomicDeletion was not invoked", p.key, p.val, p.cause)
 		}
 	}
-	if r.Cfg.Executor == ExecInline && len(r.expAsync) > 0 {
+	if r.Cfg.Executor == ExecInline && len(r.expAsync) > 0 && r.Facets&FEvents != 0 {
 		for _, p := range r.expAsync {
 			return r.fail(FEvents, "value (%d,%d) was removed (%s) but OnDeletion was not delivered", p.key, p.val, p.cause)
 		}
@@ -595,7 +615,9 @@ func (r *Runner) autoRemove(ev Ev, cur *MEntry) error {
 		r.overflowW += uint64(cur.W)
 	}
 	delete(r.M, ev.Key)
-	r.expAsync[ev.Val] = pend{key: ev.Key, val: ev.Val, cause: ev.Cause}
+	r.removalSeq++
+	r.expAsync[ev.Val] = pend{key: ev.Key, val: ev.Val, cause: ev.Cause, seq: r.removalSeq, auto: true,
+		exp: cur.Exp, writtenAt: cur.WrittenAt, sweepable: r.Cfg.Expiry != ExpNone && !cur.ExpInf && !cur.Shortened}
 	if r.autoRemovedStep != nil {
 		r.autoRemovedStep[ev.Key] = true
 	}
@@ -1612,6 +1634,19 @@ func (r *Runner) sweepCheck() error {
 		}
 		if d, of := SatAdd(e.Exp, Tick); !of && d < t && e.WrittenAt < t-Tick {
 			return r.fail(FSweep, "CleanUp at %d: key %d (value %d) expired at %d (more than one tick ago, written at %d) but was not swept/reported", t, k, e.Val, e.Exp, e.WrittenAt)
+		}
+	}
+	// "... and its Expiration event has been delivered": with a same-goroutine executor nothing is queued, so an entry that
+	// was physically removed because it had expired (by the sweep or by an operation that found it expired) and whose
+	// obligation is due must have reached OnDeletion by now
+	if r.Cfg.Executor == ExecInline {
+		for _, p := range r.expAsync {
+			if p.cause != otter.CauseExpiration || !p.sweepable {
+				continue
+			}
+			if d, of := SatAdd(p.exp, Tick); !of && d < t && p.writtenAt < t-Tick {
+				return r.fail(FSweep, "CleanUp at %d: value (%d,%d) expired at %d (more than one tick ago) and is gone from the table, but its Expiration event was never delivered to OnDeletion", t, p.key, p.val, p.exp)
+			}
 		}
 	}
 	return nil
